@@ -112,7 +112,7 @@ class C20(Sim):
                 "init": rng.below(min(4, len(elts)) + 1) if not deep else 0, "init_dups": [rng.below(4) for _ in range(rng.below(3))] if rng.chance(0.3) else [],
                 "inv_every": rng.choice([1, 1, 3, 0]) if not deep else 0,
                 "burst": rng.choice([0.2, 0.5, 0.8]),
-                "prio_pool": rng.choice(["small", "float", "wide"]),
+                "prio_pool": rng.choice(["small", "float", "wide", "close"]),
                 "reject_rate": rng.choice([0.1, 0.25])}
 
     def shrink_cfgs(self, cfg):
@@ -155,6 +155,10 @@ class C20(Sim):
         pool = self.cfg["prio_pool"]
         if pool == "small":
             return rng.choice([0, 1, 1, 2, -1, 3])
+        if pool == "close":
+            # distinct priorities closer than any sensible tolerance: the order is still the order of the numbers
+            return rng.choice([1e10, 1e10 + 1, 1e10 + 2, 1e10 + 3, 1.0, 1.0 + 2.220446049250313e-16, 1.0 + 4.440892098500626e-16,
+                               -1e10, -1e10 - 1, 2.0 ** 40, 2.0 ** 40 - 1, 2.0 ** 40 - 2])
         if pool == "float":
             return rng.choice([0.5, -0.5, 1e-9, 2.25, 0.5, float("inf"), float("-inf"), 1e300, -1e300])
         return rng.choice([rng.randint(-1000, 1000), rng.uniform(-5, 5), float("inf"), float("-inf"), 0, 0.0, -0.0])
